@@ -3,5 +3,5 @@
 cd "$(dirname "$0")/.."
 tier=${1:-quick}; jobs=${2:-4}
 ids=$(python3 -c "import json; print(' '.join(c['property_id'] for c in json.load(open('MANIFEST.json'))['checks']))")
-mkdir -p /tmp/kv_runall
-echo $ids | tr ' ' '\n' | xargs -P $jobs -I{} sh -c "./check {} --tier $tier > /tmp/kv_runall/{}.log 2>&1; echo {} rc=\$? \$(tail -1 /tmp/kv_runall/{}.log)"
+L=${KV_LOGDIR:-/tmp/kv_runall}; mkdir -p $L
+echo $ids | tr ' ' '\n' | xargs -P $jobs -I{} sh -c "./check {} --tier $tier > $L/{}.log 2>&1; echo {} rc=\$? \$(tail -1 $L/{}.log)"
